@@ -10,7 +10,8 @@ ID = "C02"
 LEVEL = "exploration"
 BUDGET = {"quick": 4000, "thorough": 48000}
 RULE = (
-    "case = generated scenario (HPC mode with 1-3 groups, or local mode) x schedule; at every job launch the set "
+    "case = generated scenario (HPC mode with 1-3 groups, or local mode) x schedule (a quarter of the HPC cases "
+    "continue with resubmit-jobs with a generated selection after completion); at every job launch the set "
     "of result rows on disk (node result files + consolidated file, read raw at that instant) is recorded and "
     "must contain every job of the launched job's blocked_by list; non-trivial = some dependency edge whose two "
     "jobs both ran in different batches, or in the same batch (local: same queue) with the dependent launched "
@@ -22,13 +23,16 @@ ASSUMPTIONS = C.WORLD_ASSUMPTIONS + [
 setup, teardown = C.setup, C.teardown
 
 
+RESUBMIT = st.fixed_dictionaries({"failed": st.booleans(), "successful": st.booleans()})
+
+
 def strategy(tier):
-    return st.one_of(
-        C.world_cases(),
-        C.world_cases(),
-        C.world_cases(),
-        C.world_cases(mode="local", max_groups=1),
-    )
+    hpc = C.world_cases()
+    # a quarter of the HPC cases go on with resubmit-jobs after completion (generated selection): the rerun jobs' result
+    # rows were removed, so a rerun blocker has to get its new outcome recorded before its dependents start again
+    hpc_resub = st.fixed_dictionaries({"scn": gen.scenarios(), "schedule": gen.schedules(), "resubmit": RESUBMIT,
+                                       "schedule2": gen.schedules(80)})
+    return st.one_of(hpc, hpc, hpc_resub, C.world_cases(mode="local", max_groups=1))
 
 
 def run_case(case):
@@ -36,7 +40,18 @@ def run_case(case):
     with H.Sim(scn, schedule=case["schedule"], observe_results=True) as sim:
         sim.submit()
         outcome = sim.drive()
+        if outcome == "complete" and case.get("resubmit") and scn["mode"] == "hpc":
+            f = case["resubmit"]
+            sim.w.note("user", cmd="resubmit")
+            sim.user_cmd(["resubmit-jobs", sim.out, "--failed" if f["failed"] else "--no-failed", "--missing",
+                          "--successful" if f["successful"] else "--no-successful"], name="resubmit")
+            sim.recovery_rounds = 0
+            s2 = case.get("schedule2", [])
+            sim.w.schedule, sim.w.k = list(s2.get("picks", []) if isinstance(s2, dict) else s2), 0
+            outcome = sim.drive()
         res = C.base_result(case, sim, outcome)
+        if any(r["k"] == "user" and r.get("cmd") == "resubmit" for r in sim.w.log):
+            res["classes"].append("resubmitted")
         if scn["mode"] == "local":
             res["classes"].append("local_mode")
         v = res["violations"]
@@ -47,6 +62,9 @@ def run_case(case):
         for r in sim.w.log:
             if r["k"] == "finish":
                 finished.add(r["name"])
+            elif r["k"] == "user" and r.get("cmd") == "resubmit":
+                finished.clear()
+                batch_of.clear()
             elif r["k"] == "launch":
                 name = r["name"]
                 batch_of[name] = r["batch"]
